@@ -4,3 +4,5 @@ import BitcaskVerif.Props.C15
 #print axioms ConnLimit.c15_no_leak
 #print axioms ConnLimit.c15_progress
 #print axioms ConnLimit.c15_finish_any_cause
+#print axioms ConnLimit.c15_accept_failure_free
+#print axioms ConnLimit.c15_accept_after_failures
